@@ -236,7 +236,7 @@ PROPS["C17"] = dict(
     parts=[dict(bin="e4_fault", timeout_s={"quick": 900, "thorough": 7200}), dict(bin="e5_proto", shards=4),
            # the failing-attempt protocol of par_solve under perturbed schedules (the C07 family, relabelled)
            dict(bin="e1_vfunc", opts={"prop": "C07", "traces": 1, "family": "perturbed", "relabel": "C07:C17"}, tag="perturbed-schedules")],
-    rule="fault case = (builder kind, n, fault): for every builder kind (function/filter, online/offline store, FuseLge3Shards, FuseLge3NoShards with 64-bit signatures, FuseLge3FullSigs without hint) and n in {0,1,2,5,16} a fault-free reference build determines the number P of passes over the sources (retries after unsolvable shards make P > 1 for most small key sets); then EVERY (pass p, index i <= n) of the key source, every (p, i < n) of the value source and every rewind of either source is failed in turn (first 4 passes (thorough 8) and the last one), plus one pair of faults; the same for keys read as lines through the crate's LineLender (two builder seeds: one whose first attempt succeeds, one that needs three passes) over a reader that fails at EVERY byte offset of every pass and at every seek back to the start (line boundaries, inside lines, end of input) of every pass; duplicate case = (kind, n in {2,3,5,12}, EVERY pair placement (i,j), triples, all-equal, threads 1/3) with check_dups(true); thorough adds one duplicate inside 10 000 and 120 000 keys; E5 part: deadlock freedom of the par_solve model when shards fail; non-trivial = n >= 2",
+    rule="fault case = (builder kind, n, fault): for every builder kind (function/filter, online/offline store, FuseLge3Shards, FuseLge3NoShards with 64-bit signatures, FuseLge3FullSigs without hint) and n in {0,1,2,5,16} a fault-free reference build determines the number P of passes over the sources (retries after unsolvable shards make P > 1 for most small key sets); then EVERY (pass p, index i <= n) of the key source, every (p, i < n) of the value source and every rewind of either source is failed in turn (first 4 passes (thorough 8) and the last one), plus one pair of faults; the same for keys read as lines through the crate's LineLender and through GzipLineLender / ZstdLineLender (two builder seeds: one whose first attempt succeeds, one that needs three passes) over a reader that fails at EVERY byte offset of every pass and at every seek back to the start (line boundaries, inside lines, end of input) of every pass; duplicate case = (kind, n in {2,3,5,12}, EVERY pair placement (i,j), triples, all-equal, threads 1/3) with check_dups(true); thorough adds one duplicate inside 10 000 and 120 000 keys; E5 part: deadlock freedom of the par_solve model when shards fail; non-trivial = n >= 2",
     alphabet="fault-injecting RewindableIoLender for keys and values (marker errors), duplicate key placements",
     bound={"quick": "n <= 16, first 4 passes + last; duplicate keys at n <= 12 (every pair) and at 200 000 keys (4 shards) with 1 and 2 solver threads", "thorough": "n <= 40, first 8 passes + last, duplicate sets at 10 000, 120 000, 200 000 and 800 000 keys (16 shards)"},
     oracle="the call returns within the watchdog; if a fault was delivered the result is Err and its chain contains the injected marker, never Ok; if the fault position was never reached the result is Ok and every key maps to its value; duplicates: Err(DuplicateKey) after exactly 4 (at least 4 above the sharding threshold, where other transient failures add attempts) signature passes (counted by the lender), never Ok",
@@ -277,7 +277,7 @@ PROPS["C15"] = dict(
     level="exploration",
     engine="E1",
     parts=[dict(bin="e1_serde", timeout_s={"quick": 900, "thorough": 3600})],
-    rule="case = (structure type, contents): BitVec (Vec/Box), AddNumBits, Rank9, RankSmall x5, Select9, SelectAdapt (two parameterisations), SelectZeroAdapt, three-level compositions, Select(Zero)AdaptConst, Select(Zero)Small, each on 11 bit vectors (empty, singletons, lengths 63/64/65/1000/4097/70000, sparse with 32-bit spans, dense with a hole); BitFieldVec<W> for the six word types x widths x lengths (Vec and Box); EliasFano plain/EfSeq/EfDict/EfSeqDict on 7 sequences (empty, empty with u>0, singleton, duplicates, 200 values, 5000 clustered, l=0 runs); RearCodedList for k in {1,4,8} on 4 lists; the six ShardEdge parameter structs set up for 0..40 000 000 keys (edges, sort keys and shards of 67 signatures compared); VFunc for 7 (backend, signature, shard/edge) combinations and VFilter x2 on key sets of 0, 1, 10, 1000 (thorough 150000) keys; every case goes through SIX loading paths: serialize+deserialize_full, deserialize_eps from an aligned byte buffer, store+load_full, mmap, load_mmap, load_mem (Select(Zero)Small: the two full-copy paths only - their zero-copy form does not implement the query traits, a compile-time limitation); non-trivial = non-empty contents",
+    rule="case = (structure type, contents): BitVec (Vec/Box), AddNumBits, Rank9, RankSmall x5, Select9, SelectAdapt (two parameterisations), SelectZeroAdapt, three-level compositions, Select(Zero)AdaptConst, Select(Zero)Small, each on 32 bit vectors (incl. ones every 8/16/20/40/64/128/300 bits at three lengths, so that every span class of the selectors occurs at both alignments) (empty, singletons, lengths 63/64/65/1000/4097/70000, sparse with 32-bit spans, dense with a hole); BitFieldVec<W> for the six word types x widths x lengths (Vec and Box); EliasFano plain/EfSeq/EfDict/EfSeqDict on 7 sequences (empty, empty with u>0, singleton, duplicates, 200 values, 5000 clustered, l=0 runs); RearCodedList for k in {1,4,8} on 4 lists; the six ShardEdge parameter structs set up for 0..40 000 000 keys (edges, sort keys and shards of 67 signatures compared); VFunc for 7 (backend, signature, shard/edge) combinations and VFilter x2 on key sets of 0, 1, 10, 1000 (thorough 150000) keys; every case goes through SIX loading paths: serialize+deserialize_full, deserialize_eps from an aligned byte buffer, store+load_full, mmap, load_mmap, load_mem (Select(Zero)Small: the two full-copy paths only - their zero-copy form does not implement the query traits, a compile-time limitation); non-trivial = non-empty contents",
     alphabet="see rule",
     bound={"quick": "as in rule", "thorough": "adds a multi-shard function (150000 keys)"},
     oracle="the complete query alphabet of the owning property (len, get/bits, rank/rank_zero at every position, select/select_zero at every rank, get/iter/iter_from/index_of/succ/pred, get/index_of/contains, get(k) for keys and non-keys, contains) gives identical answers on the original and on the loaded instance",
